@@ -99,9 +99,9 @@ ProposeConfChangeA(i, cc) ==
 ReadIndexA(i) ==
   /\ Up(i) /\ May("ReadIndex", i)
   /\ LET rid == Cnt("ReadIndex") + 1
-         m == [Msg("ReadIndex", 0) EXCEPT !.entries = <<[EmptyEntry EXCEPT !.rid = rid]>>]
+         m == [Msg("ReadIndex", 0) EXCEPT !.entries = <<ReadEntry(rid)>>]
          r == Step(Cfg(i), node[i], disk[i], m, RTO(i))
-     IN  Emit(i, [MkAct("ReadIndex", i) EXCEPT !.rid = rid], r.n, disk[i], app[i], net)
+     IN  Emit(i, [MkAct("ReadIndex", i) EXCEPT !.rid = rid, !.ents = m.entries], r.n, disk[i], app[i], net)
 
 TransferLeaderA(i, j) ==
   /\ Up(i) /\ May("TransferLeader", i)
@@ -285,6 +285,57 @@ RestartA(i, a) ==
 BootA(i) ==
   /\ Cfg(i).exists /\ ~app[i].created
   /\ Emit(i, MkAct("Boot", i), NewRawNode(Cfg(i), EmptyDisk, 0, RTO(i)), EmptyDisk, [IdleApp EXCEPT !.created = TRUE], net)
+
+----------------------------------------------------------------------------
+(* Effect(i, a, rto): the node and disk state the specification assigns to    *)
+(* node i after the event described by record `a` (same shape as `act`),      *)
+(* starting from the CURRENT state.  Used by Conform mode (TraceObs): the      *)
+(* real implementation's logged post-state must equal it.                     *)
+PersistAppendMsg(d, m) ==
+  LET hs == HS(m.term, m.vote, m.commit)
+  IN  IF m.snap.has THEN StAppend(PersistSnapHS(d, m.snap, hs), m.entries)
+      ELSE PersistSnapHS(StAppend(d, m.entries), NoSnap, hs)
+
+Effect(i, a, rto, postDisk) ==
+  LET c == Cfg(i) n == node[i] d == disk[i] p == app[i]
+      same == [n |-> n, d |-> d, ret |-> "ok", rd |-> NoReady]
+      viaStep(m) == LET r == Step(c, n, d, m, rto) IN [same EXCEPT !.n = r.n, !.ret = IF r.err = "" THEN "ok" ELSE r.err]
+  IN
+  CASE a.name = "Tick" -> [same EXCEPT !.n = Tick(c, n, d, rto)]
+    [] a.name = "Campaign" -> viaStep(Msg("Hup", 0))
+    [] a.name = "Propose" -> viaStep([Msg("Prop", 0) EXCEPT !.from = i, !.entries = a.ents])
+    [] a.name = "ProposeConfChange" -> viaStep([Msg("Prop", 0) EXCEPT !.entries = a.ents])
+    [] a.name = "ReadIndex" -> [viaStep([Msg("ReadIndex", 0) EXCEPT !.entries = a.ents]) EXCEPT !.ret = "ok"]
+    [] a.name = "TransferLeader" -> [viaStep([Msg("TransferLeader", 0) EXCEPT !.from = a.to]) EXCEPT !.ret = "ok"]
+    [] a.name = "ForgetLeader" -> viaStep(Msg("ForgetLeader", 0))
+    [] a.name = "ReportUnreachable" -> [viaStep([Msg("Unreachable", 0) EXCEPT !.from = a.to]) EXCEPT !.ret = "ok"]
+    [] a.name = "ReportSnapshot" -> [viaStep([Msg("SnapStatus", 0) EXCEPT !.from = a.to, !.reject = ~a.ok]) EXCEPT !.ret = "ok"]
+    [] a.name = "Deliver" ->
+         LET r == RawStep(c, n, d, NoMid(a.msg), rto)
+         IN  [same EXCEPT !.n = r.n, !.ret = IF r.err = "" THEN "ok" ELSE r.err]
+    [] a.name = "Ready" -> LET r == ReadyOf(c, n, d) IN [same EXCEPT !.n = r.n, !.rd = r.rd]
+    [] a.name = "PersistEntries" -> [same EXCEPT !.d = StAppend(d, p.rd.ents)]
+    [] a.name = "PersistHardState" -> [same EXCEPT !.d = PersistSnapHS(d, NoSnap, p.rd.hs)]
+    [] a.name = "PersistSnapshot" -> [same EXCEPT !.d = StAppend(PersistSnapHS(d, p.rd.snap, p.rd.hs), p.rd.ents)]
+    [] a.name = "Send" -> same
+    [] a.name = "Apply" -> [same EXCEPT !.n = ApplyEntsK(c, n, d, p.rd.committed, 1, rto)]
+    [] a.name = "Advance" -> [same EXCEPT !.n = Advance(c, n, d, rto)]
+    [] a.name = "AppendThread" ->
+         LET m == Head(p.appendQ)
+             d2 == PersistAppendMsg(d, m)
+             self == SelectSeq(m.responses, LAMBDA r : r.to = i)
+         IN  [same EXCEPT !.n = StepAllK(c, n, d2, self, 1, rto), !.d = d2]
+    [] a.name = "CrashInAppend" ->
+         [same EXCEPT !.n = DownNode, !.d = IF a.k >= 1 THEN StAppend(d, Head(p.appendQ).entries) ELSE d]
+    [] a.name = "ApplyThread" ->
+         LET m == Head(p.applyQ)
+         IN  [same EXCEPT !.n = StepAllK(c, ApplyEntsK(c, n, d, m.entries, 1, rto), d, m.responses, 1, rto)]
+    [] a.name = "Snapshot" -> [same EXCEPT !.d = StCreateSnapshot(d, a.k, a.conf)]
+    [] a.name = "Compact" -> [same EXCEPT !.d = StCompact(d, a.k)]
+    [] a.name = "Crash" -> [same EXCEPT !.n = DownNode, !.d = postDisk]      \* unsynced writes may be lost
+    [] a.name = "Restart" -> [same EXCEPT !.n = NewRawNode(c, d, a.k, rto)]
+    [] a.name = "Boot" -> [same EXCEPT !.n = NewRawNode(c, postDisk, 0, rto), !.d = postDisk]
+    [] OTHER -> same
 
 ----------------------------------------------------------------------------
 Next ==
